@@ -93,3 +93,81 @@ def py_owner(pu, dbm):
         return out
 
     return {t: owners(t) for t in spec}
+
+
+# ------------------------------------------------------------------------------------------------ program generator
+
+NUM = {"orders": ["amount", "bal", "qty"], "users": ["age"], "items": ["price"]}
+PUBKEY = {"orders": ["kind"], "users": ["city"], "items": []}
+
+
+def random_dp_program(rnd, grouped=None, joins=True, aligned_only=False):
+    """a seeded aggregation query over the catalogue -> (sql, key output names, aggregate output names).
+    Shapes: one protected table, a join along the privacy-unit path (inner / left), a join that does not follow it, a join with the
+    public table; optional WHERE; no GROUP BY or GROUP BY a public key (value set); 1-3 aggregates (sum / count / avg, DISTINCT)."""
+    r = rnd.random()
+    if not joins or r < 0.45:
+        t = rnd.choice(["orders", "orders", "users", "items"])
+        frm, alias = t, {t: ""}
+    elif r < 0.65:
+        kind = rnd.choice(["JOIN", "JOIN", "LEFT JOIN"])
+        frm, alias = "orders AS o %s users AS u ON o.user_id = u.id" % kind, {"orders": "o.", "users": "u."}
+        if kind == "LEFT JOIN" and rnd.random() < 0.5:
+            frm = "users AS u LEFT JOIN orders AS o ON u.id = o.user_id"
+    elif r < 0.8 and not aligned_only:
+        frm, alias = "orders AS o JOIN users AS u ON o.kind = u.city", {"orders": "o.", "users": "u."}
+    elif r < 0.9:
+        frm, alias = "items AS i JOIN orders AS o ON i.order_id = o.id", {"items": "i.", "orders": "o."}
+    else:
+        frm, alias = "orders AS o JOIN pub AS p ON o.kind = p.k", {"orders": "o."}
+    tabs = list(alias)
+    cols = [(alias[t] + c, c) for t in tabs for c in NUM[t]]
+    keys = [(alias[t] + c, c) for t in tabs for c in PUBKEY[t]]
+    if "LEFT JOIN" in frm:
+        # aggregate the preserved side only (padded NULLs of the other side are the known outer-join findings)
+        pres = "u." if frm.startswith("users") else "o."
+        cols = [c for c in cols if c[0].startswith(pres)]
+        keys = [k for k in keys if k[0].startswith(pres)]
+    items, kc, ac = [], [], []
+    if grouped is None:
+        grouped = rnd.random() < 0.4
+    gb = ""
+    if grouped and keys:
+        k = rnd.choice(keys)
+        items.append("%s AS g" % k[0])
+        kc.append("g")
+        gb = " GROUP BY %s" % k[0]
+    for i in range(rnd.choice([1, 1, 2, 3])):
+        c = rnd.choice(cols)
+        f = rnd.choice(["sum", "sum", "count", "avg", "sum(DISTINCT", "count(DISTINCT"])
+        e = "%s(%s)" % (f, c[0]) if "(" not in f else "%s %s)" % (f, c[0])
+        items.append("%s AS r%d" % (e, i))
+        ac.append("r%d" % i)
+    where = ""
+    if rnd.random() < 0.35:
+        c = rnd.choice(cols)
+        where = " WHERE %s %s %s" % (c[0], rnd.choice([">", "<", ">="]), rnd.choice(["0", "1", "5", "-2"]))
+    return "SELECT %s FROM %s%s%s" % (", ".join(items), frm, where, gb), kc, ac
+
+
+def random_row_program(rnd):
+    """a seeded non-aggregating query (for the privacy-unit tracking check)"""
+    r = rnd.random()
+    kinds = ["JOIN", "LEFT JOIN", "RIGHT JOIN", "FULL JOIN"]
+    if r < 0.3:
+        t = rnd.choice(["orders", "users", "items"])
+        c = rnd.choice(NUM[t])
+        q = "SELECT %s AS v FROM %s" % (rnd.choice([c, c + " + 1", c + " * 2"]), t)
+        if rnd.random() < 0.6:
+            q += " WHERE %s %s %s" % (c, rnd.choice([">", "<"]), rnd.choice(["0", "3"]))
+        return q
+    if r < 0.55:
+        on = rnd.choice(["o.user_id = u.id", "o.kind = u.city", "o.user_id = u.id AND o.amount > 0", "o.qty = u.city"])
+        return "SELECT o.amount AS x, u.age AS y FROM orders AS o %s users AS u ON %s" % (rnd.choice(kinds), on)
+    if r < 0.7:
+        on = rnd.choice(["a.kind = b.kind", "a.id = b.id", "a.user_id = b.user_id", "a.qty = b.qty"])
+        return "SELECT a.amount AS x, b.bal AS y FROM orders AS a %s orders AS b ON %s" % (rnd.choice(kinds[:2]), on)
+    if r < 0.85:
+        return "SELECT o.amount AS x, p.label AS y FROM %s" % rnd.choice(["orders AS o JOIN pub AS p ON o.kind = p.k", "pub AS p JOIN orders AS o ON o.kind = p.k", "orders AS o LEFT JOIN pub AS p ON o.kind = p.k"])
+    q, _, _ = random_dp_program(rnd, joins=rnd.random() < 0.5)
+    return q
